@@ -759,6 +759,11 @@ class YAMLPath:
 
             elif char == "]":
                 # Track bracket de-nesting
+                if demarc_count < 1:
+                    raise YAMLPathException((
+                        "Unmatched closing demarcation mark at character"
+                        " index {}, \"{}\" in YAML Path")
+                        .format(char_idx, char), yaml_path)
                 demarc_stack.pop()
                 demarc_count -= 1
 
